@@ -580,6 +580,17 @@ func (t *tokenizer) readOperator() (string, error) {
 	}
 
 	for isOperatorChar(c) {
+		if c == '/' && ret.Len() > 0 {
+			// A '/' that begins a comment ends the operator (the container skipper
+			// reads it as a comment too).
+			cs, err := t.peekN(2)
+			if err != nil && err != io.EOF {
+				return "", err
+			}
+			if len(cs) == 2 && (cs[1] == '/' || cs[1] == '*') {
+				break
+			}
+		}
 		ret.WriteByte(byte(c))
 		_, err = t.read()
 		if err != nil {
